@@ -11,12 +11,14 @@
    grammar (hints: the crate's own automaton), so for those grammars the
    conclusions hold for all inputs.
 
-   NOT proved (stated, see DESIGN.md §5 C01):
-     C01_all_grammars  : generate_model ho d src = Ok text -> validate (tables of text) = true
-                         (builder invariants; lifts the conclusions from every validated
-                         grammar to every accepted grammar)
-     (termination on every input is proved from a checked certificate, C01_terminates below; the
-      check searches and re-checks the certificate for the real tables of every sampled grammar) *)
+   AND, without any validator run, for EVERY source text the generator accepts (section
+   C01_all_grammars below): the same three conclusions for the tables `generate` builds,
+   proved from invariants of the construction (FIRST fixpoint, closure, worklist, LALR merge,
+   normalisation, table fill) — PipelineProofs.v, Build/GenCorrect.v.
+
+   NOT proved: termination for every accepted grammar (it is proved from a checked
+   certificate, C01_terminates below; the check searches and re-checks the certificate for
+   the real tables of every sampled grammar). *)
 From Coq Require Import List Arith.
 From Kiki Require Import Base.Ord Base.Chars Data LR.Driver LR.Grammar LR.Inv LR.Complete LR.Sound
   LR.Validate LR.Term LR.ValidateProofs LR.Payload.
@@ -55,8 +57,51 @@ Theorem C01_payloads_never_influence_acceptance :
     map kp w = map kq w' -> accepts kp T fuel w = accepts kq T fuel w'.
 Proof. exact @payloads_never_influence_acceptance. Qed.
 
+
+(* ---------- for EVERY grammar the generator accepts (Tier B) ----------
+   `generate_full ho digest src = Ok (out, text)` is the model of kiki::generate succeeding on
+   the source text src under any hash iteration orders ho; pt is the driver's view of the table
+   it emitted (Emit/Parser.v ptable_of: rows = chunks of the flat arrays, rule i = reduce
+   function i, terminal/nonterminal i = i-th declaration).  No validator run, no hint: the
+   invariants are proved of the construction itself (Build/GenCorrect.v, PipelineProofs.v). *)
+From Kiki Require Import Emit.Parser Pipeline PipelineProofs.
+
+Section C01_all_grammars.
+  Context {P : Type} (kind : P -> nat).
+  Variables (ho : hash_order) (digest src : str) (out : gen_out) (text : str) (pt : ptable).
+  Hypothesis Hho : perm_hash_order ho.
+  Hypothesis Hgen : generate_full ho digest src = Ok (out, text).
+  Hypothesis Hpt : ptable_of (go_file out) (go_table out) = Some pt.
+
+  Theorem C01_all_never_panics : forall fuel w site,
+    Forall (fun p => kind p < pt_nterm pt) w -> parse kind pt fuel w <> OPanic site.
+  Proof. exact (emitted_parser_safe kind ho digest src out text pt Hho Hgen Hpt). Qed.
+
+  Theorem C01_all_ok_only_for_sentences : forall fuel w t,
+    Forall (fun p => kind p < pt_nterm pt) w ->
+    parse kind pt fuel w = OAccept t -> wf kind pt (PN (pt_start_nt pt)) t /\ yield t = w.
+  Proof. exact (emitted_parser_sound kind ho digest src out text pt Hho Hgen Hpt). Qed.
+
+  Theorem C01_all_every_sentence_is_accepted : forall t k,
+    wf kind pt (PN (pt_start_nt pt)) t -> parse kind pt (size t + S k) (yield t) = OAccept t.
+  Proof. exact (emitted_parser_complete kind ho digest src out text pt Hho Hgen Hpt). Qed.
+End C01_all_grammars.
+
+(* the hypothesis Hpt is always satisfiable: an accepted source has driver tables *)
+Theorem C01_all_tables_exist : forall ho digest src out text,
+  perm_hash_order ho -> generate_full ho digest src = Ok (out, text) ->
+  exists pt, ptable_of (go_file out) (go_table out) = Some pt.
+Proof.
+  intros ho digest src out text Hho Hgen.
+  destruct (generate_tables_invariants ho digest src out text Hho Hgen) as (pt & _ & _ & Hp & _). exists pt. exact Hp.
+Qed.
+
 Print Assumptions C01_never_panics.
 Print Assumptions C01_ok_only_for_sentences.
 Print Assumptions C01_every_sentence_is_accepted.
 Print Assumptions C01_payloads_never_influence_acceptance.
 Print Assumptions C01_terminates.
+Print Assumptions C01_all_never_panics.
+Print Assumptions C01_all_ok_only_for_sentences.
+Print Assumptions C01_all_every_sentence_is_accepted.
+Print Assumptions C01_all_tables_exist.
